@@ -103,7 +103,7 @@ def main(ck):
         ck.cov['wall_in_situ_s'] = round(ck.elapsed() - t0, 1)
         return jobs, res, plug
 
-    timeout = ck.pick(300, 1500)
+    timeout = ck.pick(900, 2400)
     with ThreadPoolExecutor(core.NCPU + 1) as ex:
         fut_insitu = ex.submit(insitu)
         outs = list(ex.map(lambda t: (t[0], run_worker(tree, t[1], t[0], timeout)), tasks))
